@@ -102,6 +102,7 @@ def exec (fn : String) (a1 : Option Int) (a2 : Option Val) (ign : Bool) (w : Win
   | "listagg" => some (listAggOver cells (fun vs => Res.l (vs.filter (fun v => !isNullV v))) p)
   | "listaggd" => some (listAggAnalytic cells (fun v => norm (profileOf v)) true (fun vs => Res.l (vs.filter (fun v => !isNullV v))) p)
   | "jsonagg" => some (listAggOver cells (fun vs => Res.l vs) p)
+  | "jsonaggd" => some (listAggAnalytic cells (fun v => norm (profileOf v)) true (fun vs => Res.l vs) p)
   | "groups" => some (((cumGroups eqv p none []).zipIdx.flatMap fun gk => gk.1.map fun idx => (idx, Res.v (.int (gk.2 + 1)))))
   | "sum" => some ((aggOverP prof (aggSum ∘ dist) w p).map fun r => (r.1, Res.v r.2))
   | "avg" => some ((aggOverP prof (aggAvg ∘ dist) w p).map fun r => (r.1, Res.v r.2))
@@ -179,7 +180,7 @@ def c17full (fn : String) (args : List String) : String :=
 
 /-- `c17.glistagg - - distinct frame nsort items rows…` (rows: id keyid sortcell{nsort} arg, TABLE order):
     grouped LISTAGG … WITHIN GROUP (ORDER BY items); answer: the groups in order of first appearance -/
-def c17glistagg (args : List String) : String :=
+def c17glistagg (keepNull : Bool) (args : List String) : String :=
   let bad := "bad-op"
   match args with
   | _ :: _ :: dis :: _ :: ns :: its :: rest =>
@@ -193,7 +194,7 @@ def c17glistagg (args : List String) : String :=
         let one := fun (g : Nat × List Nat) =>
           let grp : List ARow := g.2.filterMap fun i => arr[i]?.map fun r => (⟨r.id, [], r.sort, profileOf r.arg⟩ : ARow)
           showRes (listAggGrouped its (decide (0 < nsort)) (fun v => norm (profileOf v)) distinct
-            (fun vs => Res.l (vs.filter fun v => !isNullV v)) grp)
+            (fun vs => Res.l (if keepNull then vs else vs.filter fun v => !isNullV v)) grp)
         if groups.isEmpty then "-" else String.intercalate "|" (groups.map one)
     | _, _, _ => bad
   | _ => bad
@@ -201,7 +202,8 @@ def c17glistagg (args : List String) : String :=
 def c17 (fn : String) (args : List String) : String :=
   let bad := "bad-op"
   if fn.startsWith "full:" then c17full (fn.drop 5).toString args
-  else if fn = "glistagg" then c17glistagg args
+  else if fn = "glistagg" then c17glistagg false args
+  else if fn = "gjsonagg" then c17glistagg true args
   else
   match args with
   | a1 :: a2 :: ign :: fr :: ns :: rest =>
